@@ -6,8 +6,11 @@ ID = "C11"
 QUICK_N = 2000
 THOROUGH_N = 60000
 SHARD = 500
+TRANSLATORS = ["watchdog_cond"]
 COQ_PRELUDE = "From MV Require Import Model.FlowControl.\n"
-RULE = ("(a) 70%: operation sequences (<=14) over {intercept, resume, kill, hook reaches wait_for_resume, event-loop step} on a real "
+RULE = ("(m) 12%: 2-4 flows of one multiplexed connection whose hooks are concurrent real handle_hook tasks sharing the real "
+        "TimeoutWatchdog under a virtual clock (some intercepted; time advances past the idle timeout; resume/kill in any order): the "
+        "timeout must not fire while a hook is pending, and a hook that is not intercepted completes at once. Of the rest: (a) 70%: operation sequences (<=14) over {intercept, resume, kill, hook reaches wait_for_resume, event-loop step} on a real "
         "Flow whose hook is run by the real ProxyConnectionHandler.handle_hook; state compared with the model after every "
         "operation. (b) 30%: a real TCP or UDP layer relays one message; at its message hook the addon intercepts, then the "
         "user edits/resumes/kills in generated orders; the oracle watches the bytes sent to the destination. "
@@ -15,7 +18,8 @@ RULE = ("(a) 70%: operation sequences (<=14) over {intercept, resume, kill, hook
 TRUSTED = ["Coq 8.16.1 kernel; vm_compute for case evaluation",
            "hand model of Flow.intercept/resume/kill/wait_for_resume and asyncio.Event wake-up semantics, tied by correspondence",
            "layer-level clause rests on C04 (LayerCore) plus the relay skeleton; the real TCP/UDP layers are exercised by the oracle only",
-           "addon manager abstracted to: addon decides intercept at the message hook"]
+           "addon manager abstracted to: addon decides intercept at the message hook",
+           "translator harness/translators/watchdog_cond.py (the connection-level clause is about the regenerated watcher condition; see C10)"]
 ASSUMPTIONS = ["kill() on a non-killable flow raises and changes nothing", "WebSocket and DNS layer kill paths are not driven by this check's oracle; HTTP/1 (HttpStream.check_killed) is"]
 
 OPS = ["int", "res", "kill", "wait", "loop"]
@@ -25,6 +29,29 @@ COQ_OP = {"int": "Intercept", "res": "Resume", "kill": "Kill", "wait": "HookWait
 def gen(rng, n, tier):
     out = []
     for _ in range(n):
+        if rng.chance(0.12):
+            # several flows of one (multiplexed) connection: their hooks are concurrent handle_hook tasks sharing
+            # the connection's idle watchdog; some are intercepted, time passes, the user resumes/kills
+            T = rng.randint(5, 30)
+            nf = rng.randint(2, 4)
+            started, evs = [], []
+            for _ in range(rng.randint(4, 16)):
+                r = rng.random()
+                fresh = [i for i in range(nf) if i not in started]
+                if r < 0.3 and fresh:
+                    i = rng.choice(fresh)
+                    started.append(i)
+                    evs.append(["hook", i, rng.chance(0.6)])
+                elif r < 0.45 and started:
+                    evs.append([rng.choice(["res", "res", "kill"]), rng.choice(started)])
+                elif r < 0.7:
+                    evs.append(["adv", rng.choice([1, 2, T - 1, T, T + 1, 2 * T + 1, 3 * T])])
+                elif r < 0.9:
+                    evs.append(["wstep"])
+                else:
+                    evs.append(["loop"])
+            out.append({"k": "mux", "T": T, "nf": nf, "evs": evs})
+            continue
         if rng.chance(0.7):
             ops = []
             for _ in range(rng.randint(1, 14)):
@@ -268,7 +295,90 @@ def run_http(case):
             "live": bool(f.live) if f is not None else None}
 
 
+class _Clock:
+    def __init__(self):
+        self.now = 0
+
+    def time(self):
+        return self.now
+
+
+def run_mux(case):
+    """Real handle_hook tasks of several flows share the connection's real TimeoutWatchdog (virtual clock)."""
+    from mitmproxy.proxy.layers.tcp import TcpMessageHook
+    clock = _Clock()
+    timers = []
+    real_sleep = asyncio.sleep
+
+    async def vsleep(delay, result=None):
+        fut = asyncio.get_running_loop().create_future()
+        timers.append([clock.now + max(delay, 0), fut])
+        await fut
+        return result
+
+    class _AsyncioShim:
+        def __getattr__(self, name):
+            return vsleep if name == "sleep" else getattr(asyncio, name)
+    saved_time, saved_asyncio = server.time, server.asyncio
+    server.time, server.asyncio = clock, _AsyncioShim()
+    rows = []
+    try:
+        async def main():
+            fired = []
+
+            async def cb():
+                fired.append(clock.now)
+            flows = [tflow.ttcpflow() for _ in range(case["nf"])]
+            for f in flows:
+                f.live = True
+            want_intercept = {}
+
+            def policy(hook):
+                f = hook.args()[0]
+                if want_intercept.get(id(f)):
+                    f.intercept()
+            h = _handler(policy)
+            h.timeout_watchdog = server.TimeoutWatchdog(case["T"], cb)
+            wtask = asyncio.get_running_loop().create_task(h.timeout_watchdog.watch())
+            tasks = {}
+
+            async def settle():
+                for _ in range(8):
+                    await real_sleep(0)
+            await settle()
+            for e in case["evs"]:
+                if e[0] == "hook":
+                    f = flows[e[1]]
+                    want_intercept[id(f)] = e[2]
+                    h.timeout_watchdog.register_activity()       # server_event does this for every event
+                    tasks[e[1]] = asyncio.get_running_loop().create_task(h.handle_hook(TcpMessageHook(f)))
+                    await settle()
+                elif e[0] in ("res", "kill"):
+                    _apply(flows[e[1]], e[0])
+                    await settle()
+                elif e[0] == "adv":
+                    clock.now += e[1]
+                elif e[0] == "wstep":
+                    for t in list(timers):
+                        if t[0] <= clock.now and not t[1].done():
+                            t[1].set_result(None)
+                            timers.remove(t)
+                    await settle()
+                else:
+                    await settle()
+                rows.append([clock.now, bool(fired), [[i, tasks[i].done(), bool(flows[i].intercepted)] for i in sorted(tasks)]])
+            for t in list(tasks.values()) + [wtask]:
+                t.cancel()
+            await asyncio.gather(*tasks.values(), wtask, return_exceptions=True)
+        asyncio.run(main())
+    finally:
+        server.time, server.asyncio = saved_time, saved_asyncio
+    return {"rows": rows}
+
+
 def run_impl(case):
+    if case["k"] == "mux":
+        return run_mux(case)
     if case["k"] == "flow":
         return run_flow(case)
     if case["k"] == "http":
@@ -285,6 +395,21 @@ def coq_case(case, obs):
 
 def oracle(case, obs):
     v = []
+    if case["k"] == "mux":
+        was_fired = False
+        last_done = 0
+        for e, (now, fired, ts) in zip(case["evs"], obs["rows"]):
+            pending = [i for i, done, _ in ts if not done]
+            if fired and not was_fired and pending:
+                v.append({"key": "timeout-while-intercepted", "what": f"the connection idle timeout fired at t={now} while the hooks of flows {pending} were still pending (intercepted)"})
+                break
+            was_fired = fired
+            for i, done, inter in ts:
+                if not done and not inter:
+                    v.append({"key": "other-flow-blocked", "what": f"hook of flow {i} is not intercepted (or was resumed/killed) yet has not completed at t={now} after {e}"})
+            if v:
+                break
+        return v
     if case["k"] == "flow":
         waiting_since = None
         for i, (op, r) in enumerate(zip(case["ops"], obs["rows"])):
@@ -343,6 +468,8 @@ def oracle(case, obs):
 
 
 def nontrivial(case, obs):
+    if case["k"] == "mux":
+        return any(any(not done for _, done, _ in r[2]) for r in obs["rows"])
     if case["k"] == "http":
         return obs["intercepted"]
     if case["k"] == "flow":
@@ -351,6 +478,13 @@ def nontrivial(case, obs):
 
 
 def classify(case, obs):
+    if case["k"] == "mux":
+        t = ["mux"]
+        if any(r[1] for r in obs["rows"]):
+            t.append("mux-timeout-fired")
+        if any(sum(1 for _, done, _ in r[2] if not done) >= 1 and len(r[2]) >= 2 for r in obs["rows"]):
+            t.append("mux-held-beside-others")
+        return t
     if case["k"] == "flow":
         t = ["flow"]
         if any(r[4] == 1 for r in obs["rows"]):
